@@ -304,6 +304,7 @@ def bad_read_card(rng, name):
     return rng.choice([
         [f"read echo file={name}"], [f"read noecho file={name}"], ["read"], ["read file"], ["read file="],
         [f"read file={name} noecho"], [f"read file={name} extra"], [f"read {name}"],
+        [f"read fle={name}"], [f"read decode={name}"],
     ])
 
 
